@@ -1921,6 +1921,7 @@ pub trait TVLFunction: Function {
         manager: &Self::Manager<'id>,
         edge: EdgeOfFunc<'id, Self>,
     ) -> AllocResult<EdgeOfFunc<'id, Self>> {
+        let edge = EdgeDropGuard::new(manager, edge);
         Self::not_edge(manager, &edge)
     }
 
